@@ -244,7 +244,12 @@ RESOURCES = [
 # bus/bus.c is left out on purpose: its fallible code is context construction, whose failure terminates
 # the daemon (no retry, no observable state to preserve)
 LEAK_FILES = {'bus/driver.c', 'bus/services.c', 'bus/connection.c', 'bus/dispatch.c', 'bus/signals.c',
-              'bus/activation.c', 'bus/policy.c', 'bus/expirelist.c'}
+              'bus/activation.c', 'bus/policy.c', 'bus/expirelist.c',
+              # the remaining operation families the property names: configuration parsing and
+              # message building / copying / editing
+              'bus/config-parser.c', 'bus/config-parser-common.c', 'bus/config-loader-expat.c', 'bus/utils.c',
+              'dbus/dbus-message.c', 'dbus/dbus-marshal-header.c', 'dbus/dbus-marshal-recursive.c',
+              'dbus/dbus-marshal-basic.c', 'dbus/dbus-string.c'}
 
 
 def leak_check(prog, r, fn):
@@ -273,8 +278,9 @@ def leak_check(prog, r, fn):
                             st = 'released'
                         elif cal in xfer:
                             st = 'transferred'
-                        elif cal in ('_dbus_list_append', '_dbus_list_prepend', '_dbus_hash_table_insert_string',
-                                     '_dbus_hash_table_insert_uintptr') and ai >= 1 and st == 'held':
+                        elif (cal in ('_dbus_list_append', '_dbus_list_prepend', '_dbus_hash_table_insert_string',
+                                      '_dbus_hash_table_insert_uintptr') and ai >= 1
+                              or cal == '_dbus_list_alloc_link' and ai == 0) and st == 'held':
                             st = ('xfer?', c['id'])
             for lhs, how, rhs in written_lvalues(ev):
                 if is_ref(lhs) and lhs.get('id') == vid and how in ('=', 'decl'):
@@ -330,7 +336,7 @@ def leak_check(prog, r, fn):
                 ctx.report('%s %s is still held at this exit: neither released, returned nor stored' % (
                     rname, vname), ev['line'] if ev else fn.endline, key=('leak', vname))
         acqs = {'_dbus_list_append', '_dbus_list_prepend', '_dbus_hash_table_insert_string',
-                '_dbus_hash_table_insert_uintptr'}
+                '_dbus_hash_table_insert_uintptr', '_dbus_list_alloc_link'}
         for _, acq, _, _ in RESOURCES:
             acqs |= acq
         ex = Explorer(fn, init='none', on_event=on_event, on_exit=on_exit, calls=acqs, track={vname},
@@ -357,7 +363,7 @@ def c14_2(ck, prog):
     r2 = ck.rule('C14.2b', 'every successfully initialised DBusString local is freed on every exit', 'PAIR',
                  floor=15)
     m = 0
-    for fn in lib.prod_funcs(prog, LEAK_FILES | {'dbus/dbus-message.c', 'dbus/dbus-marshal-header.c'}):
+    for fn in lib.prod_funcs(prog, LEAK_FILES):
         inits = {}
         for b, i, c in fn.calls('_dbus_string_init'):
             v = strip_addr(c['args'][0])
@@ -375,6 +381,11 @@ def c14_2(ck, prog):
                     a0 = strip_addr(c['args'][0]) if c['args'] else None
                     if a0 is not None and is_ref(a0) and a0.get('id') == vid and c.get('callee') in (
                             '_dbus_string_free',):
+                        return 'none'
+                for lhs, how, rhs in written_lvalues(ev):
+                    # "obj->field = local_string": the buffer now belongs to the object
+                    if rhs is not None and isinstance(rhs, dict) and is_ref(rhs) and rhs.get('id') == vid \
+                            and not (is_ref(lhs) and lhs.get('kind') == 'local'):
                         return 'none'
                 if isinstance(st, tuple):
                     k = ctx.result_known(st[1])
